@@ -78,6 +78,7 @@ type Engine struct {
 	w           *Worker
 	pool        *Pool
 	path        *Path
+	spinSuspect string // a loop of the code under test that kept turning while nothing else could run (see loopCheck)
 	globals     map[*ssa.Global]*Value
 	initRunning map[*ssa.Function]bool
 	funcs       map[string]bool
@@ -247,6 +248,9 @@ func (w *Worker) runPath(harness *ssa.Function, prefix []Decision) (res PathResu
 			case deadlockEvent:
 				res.Outcome = "deadlock"
 				res.Detail = r.detail
+			case livelockEvent:
+				res.Outcome = "livelock"
+				res.Detail = r.detail
 			case targetPanic:
 				res.Outcome = "panic"
 				res.Detail = describePanic(r.v)
@@ -275,7 +279,7 @@ func (w *Worker) runPath(harness *ssa.Function, prefix []Decision) (res PathResu
 	}()
 
 	// model of the path (for crash reports, observes, translator validation)
-	needModel := res.Outcome == "panic" || res.Outcome == "deadlock" || res.Outcome == "ok" || (res.Outcome == "aborted" && e.race != nil && len(e.race.races) > 0)
+	needModel := res.Outcome == "panic" || res.Outcome == "deadlock" || res.Outcome == "livelock" || res.Outcome == "ok" || (res.Outcome == "aborted" && e.race != nil && len(e.race.races) > 0)
 	if needModel {
 		if m, ok := path.CurrentModel(); ok {
 			for k, v := range path.bounds {
@@ -301,7 +305,7 @@ func (w *Worker) runPath(harness *ssa.Function, prefix []Decision) (res PathResu
 			path.violations[len(path.violations)-1].Sched = e.sched.points
 		}
 	}
-	if res.Outcome == "panic" || res.Outcome == "deadlock" {
+	if res.Outcome == "panic" || res.Outcome == "deadlock" || res.Outcome == "livelock" {
 		path.addViolation(res.Outcome, res.Detail, res.PanicPos, res.Model)
 		path.violations[len(path.violations)-1].Sched = e.sched.points
 	}
